@@ -200,6 +200,7 @@ func genWorld(seed uint64, idx int) *world {
 	}
 	if w.BadUTF8 {
 		s.Aggs = append(s.Aggs[:min(len(s.Aggs), 1)], aggSpec{Fn: seq.AggFuncCount, Group: "g"})
+		s.Limit = 1<<31 - 1
 	}
 	w.Spec = s
 	return w
@@ -843,7 +844,23 @@ func runWorld(seed uint64, idx int, tier string, only [][]crashPoint) (res *resu
 		}
 		return f.QPR
 	}
-	if only == nil {
+	// worlds of the known finding are judged here (async answer = sync answer, found, done) and reported
+	// directly under its fingerprint; they produce no Coq cases, so that they cannot mask anything else
+	sameAnswer := func(f childResp) bool {
+		a, _ := json.Marshal(resOf(f))
+		b, _ := json.Marshal(resOf(run0.sync))
+		return f.Found && f.Done && string(a) == string(b)
+	}
+	if only == nil && w.BadUTF8 {
+		res.counts = append(res.counts, "known-class-observations")
+		if !sameAnswer(run0.fetch) {
+			in := base()
+			in["kind"] = "run"
+			res.viols = append(res.viols, violation{class, "finished asynchronous search differs from the synchronous one (group-by tokens with invalid UTF-8)",
+				map[string]any{"input": in, "async": run0.fetch.QPR, "sync": run0.sync.QPR}})
+		}
+	}
+	if only == nil && !w.BadUTF8 {
 		in := base()
 		in["kind"] = "run"
 		res.cases = append(res.cases, ccase{
@@ -957,6 +974,15 @@ func runWorld(seed uint64, idx int, tier string, only [][]crashPoint) (res *resu
 		var cc []string
 		for _, cp := range chain {
 			cc = append(cc, fmt.Sprintf("(%d%%nat, %d)", cp.K, cp.Variant))
+		}
+		if w.BadUTF8 {
+			res.counts = append(res.counts, "known-class-observations")
+			if strings.Contains(obsCoq, "(0, (CInfo") && !sameAnswer(obs.fetch) {
+				res.viols = append(res.viols, violation{class, "finished asynchronous search differs from the synchronous one after a restart (group-by tokens with invalid UTF-8)",
+					map[string]any{"input": in, "async": obs.fetch.QPR, "sync": run0.sync.QPR}})
+			}
+			os.RemoveAll(dir)
+			continue
 		}
 		first := chain[0]
 		ack := first.K >= acked && !(first.Variant == 1 && first.K < acked)
